@@ -43,6 +43,9 @@ reg("C09", "h_c09")
 reg("C02", "h_c02")
 reg("C17", "h_c17")
 reg("C16", "h_c16")
+reg("C10", "h_c10")
+reg("C11", "h_c11")
+reg("C11", "h_c10")
 
 # quick / thorough wall-clock budgets per check (seconds); hitting one ends the run with exhaustive:false
 DEADLINE = {"quick": 150, "thorough": 1500}
